@@ -281,14 +281,14 @@ theorem decodeFields_peKvs (σ : Schema) (ftys : List (String × GoType)) (pe : 
 theorem wfFields_names (σ : Schema) (ftys : List (String × GoType)) (fs : List (String × Val))
     (h : wfFields σ ftys fs = true) : ftys.map (·.1) = fs.map (·.1) := by
   induction ftys generalizing fs with
-  | nil => cases fs <;> simp [wfFields] at h ⊢
+  | nil => cases fs <;> simp [wfFields, wfFieldsWith] at h ⊢
   | cons a t ih =>
     cases fs with
-    | nil => simp [wfFields] at h
+    | nil => simp [wfFields, wfFieldsWith] at h
     | cons b s =>
       obtain ⟨k, τ⟩ := a
       obtain ⟨k', v⟩ := b
-      simp [wfFields] at h
+      simp [wfFields, wfFieldsWith] at h
       simp [h.1.1, ih s h.2]
 
 /-! ### the round trip -/
@@ -371,7 +371,7 @@ theorem struct_round (σ : Schema) (name : String) (pe : Option (Pos × Pos)) (f
 theorem wf_ptr_inv (σ : Schema) (τ : GoType) (u : Val) (h : wf σ τ (.ptr u) = true) :
     ∃ t pe fs, τ = .ptr t ∧ u = .struct t pe fs ∧ namesOK ((σ.fieldsOf t).map (·.1)) = true ∧
       wfFields σ (σ.fieldsOf t) fs = true := by
-  cases τ <;> cases u <;> simp [wf] at h
+  cases τ <;> cases u <;> simp [wf, wfWith] at h
   rename_i t name pe fs
   exact ⟨t, pe, fs, rfl, by rw [h.1.1], h.1.2, h.2⟩
 
@@ -383,13 +383,13 @@ theorem wf_iface_inv (σ : Schema) (τ : GoType) (u : Val) (h : wf σ τ (.iface
   | ptr w =>
     cases w with
     | struct name pe fs =>
-      cases τ <;> simp [wf] at h
+      cases τ <;> simp [wf, wfWith] at h
       rename_i i
       refine ⟨i, name, pe, fs, rfl, rfl, ?_, h.1.1.1.1.2, h.1.1.1.2, h.1.1.2, ?_⟩
       · simpa using h.1.1.1.1.1
-      · simp [wf, h.1.2, h.2]
-    | _ => cases τ <;> simp [wf] at h
-  | _ => cases τ <;> simp [wf] at h
+      · simp [wf, wfWith, h.1.2, h.2]
+    | _ => cases τ <;> simp [wf, wfWith] at h
+  | _ => cases τ <;> simp [wf, wfWith] at h
 
 theorem decode_ptr_obj_inv (σ : Schema) (t : String) (kvs : List (String × J)) (r : Val)
     (h : decodeValue σ true (.ptr t) (.obj kvs) = .ok r) :
@@ -475,14 +475,14 @@ theorem noValue_of_encode_none (σ : Schema) (τ : GoType) (v : Val) (tn : Strin
 mutual
   theorem roundV (σ : Schema) : ∀ (v : Val) (τ : GoType), wf σ τ v = true → (∀ p, v ≠ .pos p) → RV σ v τ
     | .pos p, _, _, hp => absurd rfl (hp p)
-    | .other, τ, h, _ => by cases τ <;> simp [wf] at h
+    | .other, τ, h, _ => by cases τ <;> simp [wf, wfWith] at h
     | .bool b, τ, h, _ => by
-      cases τ <;> simp [wf] at h
+      cases τ <;> simp [wf, wfWith] at h
       cases b
       · left; exact ⟨"", by simp [encodeValue], by simp [zero, canon]⟩
       · right; exact ⟨.bool true, "", by simp [encodeValue], by simp [decodeValue, canon]⟩
     | .str s, τ, h, _ => by
-      cases τ <;> simp [wf] at h
+      cases τ <;> simp [wf, wfWith] at h
       cases s with
       | nil => left; exact ⟨"", by simp [encodeValue], by simp [zero, canon]⟩
       | cons b t =>
@@ -490,7 +490,7 @@ mutual
         refine ⟨.str (sanitize (b :: t)), "", by simp [encodeValue], ?_⟩
         rw [h]; simp [decodeValue, canon]
     | .uint bits op n, τ, h, _ => by
-      cases τ <;> simp [wf] at h
+      cases τ <;> simp [wf, wfWith] at h
       rename_i b o
       obtain ⟨⟨⟨⟨hb, ho⟩, hbits⟩, hn⟩, hop⟩ := h
       subst hb ho
@@ -510,16 +510,16 @@ mutual
           refine ⟨.str (σ.tokStr n), "", by simp [encodeValue, hbits, hz], ?_⟩
           simp only [decodeValue, if_true, hop, canon]
     | .nil, τ, h, _ => by
-      cases τ <;> simp [wf] at h
+      cases τ <;> simp [wf, wfWith] at h
       left; exact ⟨"", by simp [encodeValue], by simp [zero, canon]⟩
     | .inil, τ, h, _ => by
-      cases τ <;> simp [wf] at h
+      cases τ <;> simp [wf, wfWith] at h
       left; exact ⟨"", by simp [encodeValue], by simp [zero, canon]⟩
     | .snil, τ, h, _ => by
-      cases τ <;> simp [wf] at h
+      cases τ <;> simp [wf, wfWith] at h
       left; exact ⟨"", by simp [encodeValue], by simp [zero, canon]⟩
     | .struct name pe fs, τ, h, _ => by
-      cases τ <;> simp [wf] at h
+      cases τ <;> simp [wf, wfWith] at h
       rename_i name' ftys
       obtain ⟨⟨hname, hn⟩, hw⟩ := h
       subst hname
@@ -530,7 +530,7 @@ mutual
         wrapVal, canon]
     | .ptr u, τ, h, _ => by
       obtain ⟨t, pe, fs, hτ, hu, hn, hw⟩ := wf_ptr_inv σ τ u h
-      have hwu : wf σ (.struct t (σ.fieldsOf t)) u = true := by rw [hu]; simp [wf, hn, hw]
+      have hwu : wf σ (.struct t (σ.fieldsOf t)) u = true := by rw [hu]; simp [wf, wfWith, hn, hw]
       have ih := roundV σ u (.struct t (σ.fieldsOf t)) hwu (by rw [hu]; intro p; simp)
       subst hτ
       rcases ih with ⟨tn, he, _⟩ | ⟨j, tn, he, hd⟩
@@ -598,7 +598,7 @@ mutual
         have hc : canon (Val.iface u) = .iface (canon u) := by simp [canon]
         rw [hc, hr]
     | .slice vs, τ, h, _ => by
-      cases τ <;> simp [wf] at h
+      cases τ <;> simp [wf, wfWith] at h
       rename_i ε
       obtain ⟨js, henc, hlen, hdec⟩ := roundE σ vs ε h
       cases vs with
@@ -615,13 +615,13 @@ mutual
         refine ⟨[], by simp [encodeFields], by simp, ?_⟩
         intro allF preT preV rest _ _ _
         simp [zeroFields, canonF]
-      | cons a t => simp [wfFields] at h
+      | cons a t => simp [wfFields, wfFieldsWith] at h
     | (k, v) :: fs', ftys, h => by
       cases ftys with
-      | nil => simp [wfFields] at h
+      | nil => simp [wfFields, wfFieldsWith] at h
       | cons a ftys' =>
         obtain ⟨k', τ⟩ := a
-        simp only [wfFields, Bool.and_eq_true, decide_eq_true_eq] at h
+        simp only [wfFields, wfFieldsWith, Bool.and_eq_true, decide_eq_true_eq] at h
         obtain ⟨⟨hk, hwv⟩, hwf⟩ := h
         subst hk
         obtain ⟨kvs', henc', hkeys', hdec'⟩ := roundF σ fs' ftys' hwf
@@ -636,9 +636,9 @@ mutual
         by_cases hpos : ∃ p, v = .pos p
         · obtain ⟨p, hv⟩ := hpos
           subst hv
-          have hτ : τ = .pos := by cases τ <;> simp [wf] at hwv; rfl
+          have hτ : τ = .pos := by cases τ <;> simp [wfWith] at hwv; rfl
           subst hτ
-          simp only [wf] at hwv
+          simp only [wfWith] at hwv
           cases hval : p.isValid
           · -- omitted; the zero position is the canonical form
             have hnone : encPos p = none := by simp [encPos, hval]
@@ -673,7 +673,7 @@ mutual
               simpa [canonF, hc] using this
         · have hnp : ∀ p, v ≠ .pos p := fun p e => hpos ⟨p, e⟩
           have hτ : τ ≠ .pos := by
-            intro e; subst e; cases v <;> simp [wf] at hwv
+            intro e; subst e; cases v <;> simp [wfWith] at hwv
             exact hnp _ rfl
           have hencF : ∀ (r : EncR), encodeValue σ v = r →
               encodeFields σ ((k', v) :: fs') = (match r, encodeFields σ fs' with
@@ -709,7 +709,7 @@ mutual
   theorem roundE (σ : Schema) : ∀ (vs : List Val) (ε : GoType), wfElems σ ε vs = true → RE σ vs ε
     | [], ε, _ => ⟨[], by simp [encodeElems], rfl, by simp [decodeElems, canonL]⟩
     | v :: vs', ε, h => by
-      simp only [wfElems, Bool.and_eq_true, Bool.not_eq_true'] at h
+      simp only [wfElems, wfElemsWith, Bool.and_eq_true, Bool.not_eq_true'] at h
       obtain ⟨⟨⟨hwv, hnv⟩, hnp⟩, hwe⟩ := h
       obtain ⟨js', henc', hlen', hdec'⟩ := roundE σ vs' ε hwe
       have hnp' : ∀ p, v ≠ .pos p := by
@@ -900,5 +900,77 @@ mutual
         simp only [canonF, canon, annotateF, annotate, encodeFields, ihf, ihv]
       | _ => simp only [canonF, canon, annotateF, annotate, encodeFields, ihf]
 end
+
+/-! ### structural equality -/
+
+mutual
+  theorem beqVal_refl : ∀ (v : Val), beqVal v v = true
+    | .pos _ => by simp [beqVal]
+    | .bool _ => by simp [beqVal]
+    | .str _ => by simp [beqVal]
+    | .uint _ _ _ => by simp [beqVal]
+    | .nil => by simp [beqVal]
+    | .inil => by simp [beqVal]
+    | .snil => by simp [beqVal]
+    | .other => by simp [beqVal]
+    | .ptr v => by simp only [beqVal, beqVal_refl v]
+    | .iface v => by simp only [beqVal, beqVal_refl v]
+    | .slice vs => by simp only [beqVal, beqValL_refl vs]
+    | .struct _ _ fs => by simp [beqVal, beqValF_refl fs]
+  theorem beqValL_refl : ∀ (vs : List Val), beqValL vs vs = true
+    | [] => by simp [beqValL]
+    | v :: vs => by simp [beqValL, beqVal_refl v, beqValL_refl vs]
+  theorem beqValF_refl : ∀ (fs : List (String × Val)), beqValF fs fs = true
+    | [] => by simp [beqValF]
+    | (k, v) :: fs => by simp [beqValF, beqVal_refl v, beqValF_refl fs]
+end
+
+theorem ne_of_beqVal_false (a b : Val) (h : beqVal a b = false) : a ≠ b := by
+  intro e; subst e; rw [beqVal_refl] at h; contradiction
+
+/-! ### the root -/
+
+theorem round_root (σ : Schema) (v : Val) (h : wf σ (.iface "Node") (.iface v) = true) :
+    ∃ j, encodeRoot σ v = .val j ∧ decodeRoot σ j = .ok (canon (.iface v)) := by
+  rcases roundV σ (.iface v) (.iface "Node") h (by intro p; simp) with ⟨tn, he, _⟩ | ⟨j, tn, he, hd⟩
+  · have := noValue_of_encode_none σ (.iface "Node") (.iface v) tn h he
+    simp [isNoValue] at this
+  · refine ⟨j, by simp only [encodeRoot, he], ?_⟩
+    simp only [decodeRoot, hd, canon]
+
+theorem reencode_root (σ : Schema) (ann : Ann) (t : Val) (hs : peStable ann t) :
+    encodeRoot σ (annotate ann (canon t)) = encodeRoot σ (annotate ann t) := by
+  have := encode_annotate_canon σ ann (.iface t) (by simpa only [peStable] using hs)
+  simp only [canon, annotate] at this
+  simp only [encodeRoot, this]
+
+theorem newPos_offs_le (o l c : Nat) : (newPos o l c).offs ≤ offsetMax := by
+  obtain ⟨c1, _, _, _, _, _, _⟩ := consts_eval
+  simp only [newPos, c1, u32]
+  omega
+
+theorem newPos_line_overflow (o l c : Nat) (h : lineMax < l) : (newPos o l c).line = 0 := by
+  obtain ⟨c1, _, c3, c4, c5, _, _⟩ := consts_eval
+  simp only [newPos, Pos.line, c3, c4, c5] at *
+  have e : l > 262143 := h
+  simp only [e, if_true]
+  have z : u32 (u32 0 <<< 14) = 0 := by decide
+  rw [z, Nat.zero_or, Nat.shiftRight_eq_div_pow]
+  unfold u32
+  split <;> omega
+
+theorem newPos_col_overflow (o l c : Nat) (h : colMax < c) : (newPos o l c).col = 0 := by
+  obtain ⟨c1, _, c3, c4, c5, c6, _⟩ := consts_eval
+  simp only [newPos, Pos.col, c3, c4, c5, c6] at *
+  have e : c > 16383 := h
+  simp only [e, if_true]
+  have z : u32 0 = 0 := by decide
+  rw [z, Nat.or_zero]
+  have hm := Nat.and_two_pow_sub_one_eq_mod (u32 (u32 (if l > 262143 then 0 else l) <<< 14)) 14
+  have hm' : u32 (u32 (if l > 262143 then 0 else l) <<< 14) &&& 16383 =
+      u32 (u32 (if l > 262143 then 0 else l) <<< 14) % 16384 := by simpa using hm
+  rw [hm', Nat.shiftLeft_eq]
+  unfold u32
+  split <;> omega
 
 end ShVerif.C15
